@@ -151,7 +151,9 @@ def execute(scn):
         elif framing == 'tcp':
             fn = codec.request_len if direction == 'req' else codec.response_len
             want = fn(d['pdu'] or b'')
-            if want not in (None, -1) and want != len(d['pdu'] or b''):
+            if want is None:
+                why = 'MBAP length %d inconsistent with the PDU (shorter than its own count fields require)' % (len(d['pdu'] or b'') + 1)
+            elif want != -1 and want != len(d['pdu'] or b''):
                 why = 'MBAP length %d inconsistent with the PDU (its fields imply %d bytes)' % (len(d['pdu']) + 1, want + 1)
         sig = {'property': ID, 'framing': framing, 'decoder': scn['decoder'], 'class': 'unjustified-delivery',
                'corruption': '+'.join(kinds), 'why': ('mbap-length-inconsistent' if why.startswith('MBAP') else
